@@ -276,8 +276,8 @@ void visit_checks(Seq const &s, i64 p, char const *name)
     IV log;
     auto const r = fcppt::algorithm::find_if_opt(src, [&](El const &e) { log.push_back(e.pos()); return pred(e.v()); });
     auto const cr = fcppt::algorithm::find_if_opt(std::as_const(src), [&](El const &e) { return pred(e.v()); });
-    static_assert(std::is_same_v<std::remove_cvref_t<decltype(r.get_unsafe())>, typename Src::iterator>);
-    static_assert(std::is_same_v<std::remove_cvref_t<decltype(cr.get_unsafe())>, typename Src::const_iterator>);
+    VERIF_TYPE_FACT((std::is_same_v<std::remove_cvref_t<decltype(r.get_unsafe())>, typename Src::iterator>), "std::is_same_v<std::remove_cvref_t<decltype(r.get_unsafe())>, typename Src::iterator>");
+    VERIF_TYPE_FACT((std::is_same_v<std::remove_cvref_t<decltype(cr.get_unsafe())>, typename Src::const_iterator>), "std::is_same_v<std::remove_cvref_t<decltype(cr.get_unsafe())>, typename Src::const_iterator>");
     int const off = r.has_value() ? static_cast<int>(std::distance(src.begin(), r.get_unsafe())) : -1;
     int const coff = cr.has_value() ? static_cast<int>(std::distance(std::as_const(src).begin(), cr.get_unsafe())) : -1;
     chkk(off == first && coff == first, key("algorithm::find_if_opt|result"), [&] { return "find_if_opt(" + show(s) + ", pred#" + std::to_string(p) + ") found offset " + std::to_string(off) + "/" + std::to_string(coff) + ", expected " + std::to_string(first) + " (-1 = nothing)"; });
